@@ -51,6 +51,7 @@ FIXED.update({
  "exhaustiveness checking panicked on a wildcard arm after a pattern on a generic variant": ("C04,C12", "fn mk() -> result<void, string>; match mk() { .ok(_) -> 1  _ -> 2 }: index out of bounds in pat_exhaustiveness.rs"),
  "a function with two parameters of the same name and a default argument crashed": ("C04", "fn f(a, a, b = 3) = b ; f(1, 2): index out of bounds in calculate_named_arg_order"),
  "parse time was exponential in the nesting depth of parenthesised expressions": ("C04", "(a = (a = ( ... 1))) nested 24 deep does not finish in a minute"),
+ "a host function used as a function value returned no value": ("C11,C01", "let f = readline ; let s = f() (zero-parameter host function through a value): the wrapper ends with ReturnVoid and the caller reads a stale slot; let p = print_string ; 10 + { p(\"x\") ; 5 } faults (the argument stays on the stack)"),
  "looking up an interface implementation panicked": ("C04,C34", 'type Gg = { aa: string = "x"! } ; implement ToString for <undefined type>'),
  "an array type annotation without a type argument": ("C04,C34", "let a: array<> = [1]"),
  "the push/pop peephole underflowed": ("C04", "type Gg = {..}; Gg as an expression statement: subtract with overflow in the optimizer"),
